@@ -79,6 +79,34 @@ theorem stepRT_MESHM (d d0 : T2Data) (hxp : XpFree d0) (hne : d.meshmaker ≠ []
   rw [h]
   rfl
 
+/-! ### SIMUL (the AUTOUGH2 flavour) -/
+
+/-- the simulator string the reader gets from the line after SIMUL -/
+def canonSimulator (d : T2Data) : Str := rstripNewline (slice (nl (strip d.simulator)) 0 80)
+
+/-- SIMUL: the object has a simulator string (so the section is written) and what is read back from its line is
+    not empty (so the reader's object is of the AUTOUGH2 flavour too); with no companion file, reading the
+    extra-precision data does nothing -/
+theorem stepRT_SIMUL (d d0 : T2Data) (hxp : XpFree d0) (hs : d.simulator ≠ []) (hc : canonSimulator d ≠ []) :
+    StepRT d c!"SIMUL" d0 { d0 with simulator := canonSimulator d } := by
+  have hemp : d.simulator.isEmpty = false := by
+    cases hd : d.simulator with | nil => exact absurd hd hs | cons _ _ => rfl
+  refine stepRT_plain [nl (strip d.simulator)] ?_ ?_ hxp
+  · show (Except.ok (if d.simulator.isEmpty then [] else [nl c!"SIMUL", nl (strip d.simulator)]) : Except Exc (List Str)) = _
+    rw [hemp]; rfl
+  · intro line tail
+    have h1 : xpReadable c!"SIMUL" = false := by decide
+    have hca : (!(canonSimulator d).isEmpty) = true := by
+      cases hd : canonSimulator d with | nil => exact absurd hd hc | cons _ _ => rfl
+    have hrv : readValueLine .default ⟨[c!"simulator"], [{ raw := ['8', '0'], width := 80, left := false, prec := none, typ := 's' }]⟩
+        [(c!"simulator", .str d0.simulator)] (nl (strip d.simulator)) = .ok [(c!"simulator", .str (canonSimulator d))] := rfl
+    unfold readSection
+    simp only [h1, Bool.false_and, Bool.false_eq_true, if_false]
+    simp (config := { decide := true }) only [if_true, List.cons_append, List.nil_append, readline, hrv]
+    have hg : (Dict.get [(c!"simulator", Val.str (canonSimulator d))] c!"simulator").getD Val.none = Val.str (canonSimulator d) := rfl
+    rw [hg]
+    simp only [T2Data.autough2, hca, if_true, readExtraPrecision]
+
 /-! ### SHORT -/
 
 /-- `read_short_output` looks at its header line only through the `short` record -/
